@@ -14,15 +14,15 @@ MANIFEST = {
             "(fs = R*sps with integer sps, dt = 1/fs, f0 = c/wavelength, N in effect => t and w have N*sps points computed from "
             "the current fs and dt, dw = 2*pi*fs/(N*sps)) holds initially, after clean(), after every successful call with "
             "commensurate rates, hence after ANY op list (induction); custom attributes persist over any history of calls and "
-            "are removed by clean(); clean() restores every default.  A static table of every write to gv inside "
+            "are all removed by clean() (callable values and '__' names included); clean() restores every default after any "
+            "history.  A static table of every write to gv inside "
             "devices/ppm/ook/utils is regenerated from the source on every run and proved empty.  Tie: translator (defaults, "
             "clean filter, writer scan) + differential run of random histories against the real singleton.  Purity / "
             "seed-reproducibility / no-aliasing / operands-unchanged are runtime monitors on 60 public functions (partial).",
     "note": "Trusted: Lean kernel, translators tools/extractors/gv.py and gvwriters.py (Python ast), harness and its monitors; "
             "scipy.constants.c = 299792458 and pi = math.pi (checked at run time).  The model stops at the first exception "
             "(the real object is then half-updated).  Keywords named like a grid attribute (dt, f0, t, dw, w) are outside the "
-            "model.  clean() keeps callable custom attributes and names starting with '__' (modelled faithfully; "
-            "theorem clean_keeps_callable shows the full clause fails there).  gv.t follows the library's linspace(0, N*sps*dt, "
+            "model.  gv.t follows the library's linspace(0, N*sps*dt, "
             "N*sps, endpoint=True) convention.  Axioms: propext, Classical.choice, Quot.sound.",
     "technique": "Lean 4 proof (invariant + induction over histories) on a model whose defaults are regenerated from source; "
                  "translator-produced static table proved empty; exact/1e-12 differential run; runtime monitors (partial)",
@@ -40,8 +40,6 @@ PARTIAL = [
     "seeded re-run reproduces the output bit-for-bit; deterministic blocks give identical results whatever was called before: "
     "monitor (np.random.seed(s) + re-run, call-order permutations on shared inputs)",
     "outputs never alias input buffers: monitor (np.shares_memory between every result array and every argument / gv array)",
-    "clean() restores every default: theorem only for non-callable custom values with names not starting with '__' "
-    "(C14_full_clean is refuted on the faithful model by clean_keeps_callable)",
     "float rounding of dt, t, dw, w, f0: compared at 1e-12 relative against the exact model",
 ]
 ASSUMPTIONS = [
@@ -58,7 +56,6 @@ C_LIGHT = 299792458
 WL_DEFAULT = 1550e-9
 RESERVED = ["sps", "R", "fs", "wavelength", "N", "dt", "f0", "t", "dw", "w", "self"]
 STANDARD = ["sps", "R", "fs", "dt", "wavelength", "f0", "N", "t", "dw", "w"]
-PENDING = bool(os.environ.get("VERIF_C14_PENDING"))      # also generate callable / '__x' custom attributes (known to survive clean())
 
 
 # =====================================================================================================================
@@ -69,7 +66,7 @@ R_POOL = [1e9, 2.5e9, 10e9, 1.25e9, 5e8, 622080000.0, 40e9, 1000000000, 3e9]
 SPS_POOL = [1, 2, 3, 4, 5, 7, 8, 9, 16, 17, 32, 64]
 WL_POOL = [1550e-9, 1310e-9, 1.5e-6, 850e-9, 1e-6]
 N_POOL = [1, 2, 3, 5, 8, 10, 16]
-NAMES = ["alpha", "beta", "G", "NF", "BW", "Vpi", "x1", "_hidden"]
+NAMES = ["alpha", "beta", "G", "NF", "BW", "Vpi", "x1", "_hidden", "__x", "pulse"]
 
 
 def _custom_value(rng):
@@ -78,8 +75,10 @@ def _custom_value(rng):
         return rng.randrange(-50, 50)
     if r < 0.7:
         return rng.randrange(-400, 400) / 8.0
-    if r < 0.85:
+    if r < 0.82:
         return rng.choice(["x", "abc", "rz"])
+    if r < 0.9:
+        return "<callable>"
     return None
 
 
@@ -169,9 +168,11 @@ def gen_histories(rng, tier):
     ]
     for ops in D:
         cases.append({"kind": "hist", "ops": ops})
-    if PENDING:
-        cases.append({"kind": "hist", "ops": [{"op": "call", "kw": {"shape": "<callable>"}}, {"op": "clean"}]})
-        cases.append({"kind": "hist", "ops": [{"op": "call", "kw": {"__x": 5}}, {"op": "clean"}]})
+    # callable values and '__' names are custom attributes like any other (clean() used to keep them: fixed in /repo)
+    cases.append({"kind": "hist", "ops": [{"op": "call", "kw": {"shape": "<callable>"}}, {"op": "clean"}]})
+    cases.append({"kind": "hist", "ops": [{"op": "call", "kw": {"__x": 5}}, {"op": "clean"}]})
+    cases.append({"kind": "hist", "ops": [{"op": "call", "sps": 8, "R": 1e9, "N": 2, "kw": {"shape": "<callable>", "__x": 5, "alpha": 1}},
+                                          {"op": "call", "kw": {"__x": "<callable>"}}, {"op": "clean"}, {"op": "call", "kw": {"beta": 2}}]})
     return cases
 
 
@@ -224,6 +225,16 @@ def _do_op(gv, op):
         raise AssertionError("gv(...) must return the instance itself")
 
 
+def _hard_reset(gv):
+    """restore the singleton for whoever runs next: clean(), then remove whatever clean() left behind"""
+    try:
+        gv.clean()
+    finally:
+        for k in list(vars(gv)):
+            if k not in STANDARD:
+                delattr(gv, k)
+
+
 def run_hist(case):
     import numpy as np
     import scipy.constants as sc
@@ -234,7 +245,7 @@ def run_hist(case):
         # start every history from a clean() applied to a deliberately dirty object (makes the case self-contained)
         with warnings.catch_warnings():
             warnings.simplefilter("ignore")
-            gv(sps=4, R=2e9, N=3, wavelength=1310e-9, zz_probe=1, _hidden=1, alpha="a")
+            gv(sps=4, R=2e9, N=3, wavelength=1310e-9, zz_probe=1, _hidden=1, alpha="a", __y=1, pulse=len)
         gv.clean()
         res["start"] = _snap(gv)
         for i, op in enumerate(case["ops"]):
@@ -257,7 +268,7 @@ def run_hist(case):
                 res["t_full"] = [float(x) for x in fin["t"]]
                 res["w_full"] = [float(x) for x in fin["w"]]
     finally:
-        gv.clean()
+        _hard_reset(gv)
     return res
 
 
@@ -469,7 +480,7 @@ def oracle_hist(case, res):
             break
         where = f"after op {i} of {str(case['ops'][:i + 1])[:300]}"
         if op["op"] == "clean":
-            custom = {k: val for k, val in custom.items() if PENDING and (k.startswith("__") or val == "<callable>") and False}
+            custom = {}
             commensurate = True
             if not (st["sps"] == 16 and st["R"] == 1e9 and st["fs"] == 16e9 and st["dt"] == 1 / 16e9
                     and st["wavelength"] == WL_DEFAULT and st["f0"] == C_LIGHT / WL_DEFAULT and st["N"] is None
@@ -861,7 +872,7 @@ def run_monitor(case):
     except Exception as e:  # noqa
         res.update(status="err", err=exc_enum(e), detail=repr(e)[:300])
     finally:
-        gv.clean()
+        _hard_reset(gv)
     return res
 
 
